@@ -619,7 +619,6 @@ Proof.
   destruct (Nat.ltb (length cs) (S (length (s_rest s0)))); [right|left; reflexivity].
   cbn [bind]. apply finish_text_spec.
 Qed.
-Print Assumptions process_text_with_chunks.
 
 Theorem process_text_with_chunks_fueled : forall t r c s0 cs,
   existsb (fun x => (x =? 38) || (x =? 13)) (slice_bytes text t) = true ->
@@ -632,11 +631,9 @@ Proof.
   intros t r c s0 cs Hx Hs Hr Hl.
   rewrite process_text_with_unfold, Hx, Hs. cbn [negb bind].
   rewrite (text_loop_reads r c s0 cs Hr).
-  replace (Nat.ltb (length cs) (S (length (s_rest s0)))) with true
-    by (symmetry; apply Nat.ltb_lt; lia).
+  destruct (Nat.ltb (length cs) (S (length (s_rest s0)))) eqn:E; [|lia].
   cbn [bind]. apply finish_text_spec.
 Qed.
-Print Assumptions process_text_with_chunks_fueled.
 
 (* with C04: at the top level the appended text is the XML decoding of the chunks *)
 Corollary process_text_with_decode_top : forall t r c s0 cs,
@@ -651,5 +648,184 @@ Proof.
   rewrite <- (text_chunks_decode_partial cs) by (eapply reads_nonempty_refs; eassumption).
   rewrite <- Hd. eapply process_text_with_chunks; eassumption.
 Qed.
-Print Assumptions process_text_with_decode_top.
 End TextLoop.
+Print Assumptions process_text_with_chunks.
+Print Assumptions process_text_with_chunks_fueled.
+Print Assumptions process_text_with_decode_top.
+
+(* ------------------------------------------------------------------------------------------ *)
+(* the same for attribute values: the loop of [norm_attr_lvl]                                 *)
+(* ------------------------------------------------------------------------------------------ *)
+
+Section AttrLoop.
+Variable text : bytes.
+
+(* the inner loop of [norm_attr_lvl], copied; [norm_attr_lvl_unfold] checks it by conversion *)
+Definition attr_loop (lvl' : nat) (entities : list entity) :=
+  fix loop (fuel : nat) (s : stream) (t : text_buffer) (ld : loop_detector) {struct fuel}
+    : res (text_buffer * loop_detector) :=
+    match fuel with
+    | O => OutOfFuel
+    | S fu =>
+      if at_end s then Ok (t, ld) else
+      let! x := curr_byte_unchecked s in
+      if negb (x =? 38) then
+        if (x =? 60) && (0 <? ld_depth ld) then err_at text s InvalidAttributeValue
+        else
+          let! s := advance 1 s in
+          loop fu s (tb_push_from_attr x (curr_byte_opt s) t) ld
+      else
+        let start := s_pos s in
+        let! r := consume_reference text s in
+        match r with
+        | Some (RefChar ch, s) =>
+          match push_char_bytes_attr (encode_utf8 ch) (0 <? ld_depth ld) t with
+          | Some t => loop fu s t ld
+          | None => err_from text start InvalidAttributeValue
+          end
+        | Some (RefEntity name, s) =>
+          match find_entity text entities (slice_bytes text name) with
+          | Some e =>
+            let! ld := inc_references text s ld in
+            let! ld := inc_depth text s ld in
+            let! (t, ld) := norm_attr_lvl text lvl' entities (en_value e) t ld in
+            loop fu s t (dec_depth ld)
+          | None => err_from text start (UnknownEntityReference (slice_bytes text name))
+          end
+        | None => err_from text start MalformedEntityReference
+        end
+    end.
+
+Lemma norm_attr_lvl_unfold : forall lvl' entities value t ld,
+  norm_attr_lvl text (S lvl') entities value t ld =
+  let! s0 := stream_from_substr text (sl_start value) (sl_end value) in
+  attr_loop lvl' entities (S (length (s_rest s0))) s0 t ld.
+Proof. reflexivity. Qed.
+
+(* the attribute value read from [s] consists of the chunks [cs]: literal bytes other than '&'
+   (and other than '<' inside an entity value, where the crate refuses it) and character /
+   predefined references; no general entity reference *)
+Inductive areads (in_entity : bool) : stream -> list chunk -> Prop :=
+| areads_end : forall s, at_end s = true -> areads in_entity s []
+| areads_byte : forall s x s' cs,
+    at_end s = false -> curr_byte_unchecked s = Ok x -> (x =? 38) = false ->
+    (x =? 60) && in_entity = false ->
+    advance 1 s = Ok s' ->
+    areads in_entity s' cs -> areads in_entity s (CLit x :: cs)
+| areads_char : forall s ch s' cs,
+    at_end s = false -> curr_byte_unchecked s = Ok 38 ->
+    consume_reference text s = Ok (Some (RefChar ch, s')) ->
+    areads in_entity s' cs -> areads in_entity s (CRef (encode_utf8 ch) :: cs).
+
+(* [next_src] is the byte the crate peeks at *)
+Lemma areads_next : forall e s cs, areads e s cs -> curr_byte_opt s = next_src cs.
+Proof.
+  intros e s cs H. unfold curr_byte_opt.
+  destruct H as [s He | s x s' cs He Hc _ _ _ _ | s ch s' cs He Hc _ _]; rewrite He.
+  - reflexivity.
+  - unfold curr_byte_unchecked in Hc. destruct (s_rest s); [discriminate|].
+    injection Hc as ->. reflexivity.
+  - unfold curr_byte_unchecked in Hc. destruct (s_rest s); [discriminate|].
+    injection Hc as ->. reflexivity.
+Qed.
+
+Lemma attr_loop_reads : forall lvl' entities ld s cs,
+  areads (0 <? ld_depth ld) s cs ->
+  forall fuel t t',
+  push_attr_chunks (0 <? ld_depth ld) cs t = Some t' ->
+  attr_loop lvl' entities fuel s t ld =
+  if Nat.ltb (length cs) fuel then Ok (t', ld) else OutOfFuel.
+Proof.
+  intros lvl' entities ld s cs H.
+  induction H as [s He | s x s' cs He Hc H38 H60 Ha Hr IH | s ch s' cs He Hc Hcr Hr IH];
+    intros [|fu] t t' Hp; try reflexivity; cbn [push_attr_chunks] in Hp.
+  - injection Hp as <-. cbn [attr_loop]. rewrite He. reflexivity.
+  - cbn [attr_loop]. rewrite He, Hc. cbn [bind]. rewrite H38, H60. cbn [negb].
+    rewrite Ha. cbn [bind]. rewrite (areads_next _ _ _ Hr).
+    rewrite (IH fu _ _ Hp). reflexivity.
+  - destruct (push_char_bytes_attr (encode_utf8 ch) (0 <? ld_depth ld) t) as [t1|] eqn:E;
+      [|discriminate].
+    cbn [attr_loop]. rewrite He, Hc. cbn [bind].
+    change (38 =? 38) with true. cbn [negb].
+    rewrite Hcr. cbn [bind]. rewrite E.
+    rewrite (IH fu _ _ Hp). reflexivity.
+Qed.
+
+(* when the chunk machine refuses (a referenced '<' inside an entity value), so does the crate *)
+Lemma attr_loop_refuses : forall lvl' entities ld s cs,
+  areads (0 <? ld_depth ld) s cs ->
+  forall fuel t,
+  push_attr_chunks (0 <? ld_depth ld) cs t = None ->
+  attr_loop lvl' entities fuel s t ld = OutOfFuel \/
+  exists p, attr_loop lvl' entities fuel s t ld = err_from text p InvalidAttributeValue.
+Proof.
+  intros lvl' entities ld s cs H.
+  induction H as [s He | s x s' cs He Hc H38 H60 Ha Hr IH | s ch s' cs He Hc Hcr Hr IH];
+    intros [|fu] t Hp; try (left; reflexivity); cbn [push_attr_chunks] in Hp.
+  - discriminate.
+  - cbn [attr_loop]. rewrite He, Hc. cbn [bind]. rewrite H38, H60. cbn [negb].
+    rewrite Ha. cbn [bind]. rewrite (areads_next _ _ _ Hr). apply IH. exact Hp.
+  - cbn [attr_loop]. rewrite He, Hc. cbn [bind].
+    change (38 =? 38) with true. cbn [negb].
+    rewrite Hcr. cbn [bind].
+    destruct (push_char_bytes_attr (encode_utf8 ch) (0 <? ld_depth ld) t) as [t1|] eqn:E.
+    + apply IH. exact Hp.
+    + right. eexists. reflexivity.
+Qed.
+
+(* an attribute value (or entity value, when the depth is positive) without general entity
+   references: [norm_attr_lvl] runs the chunk machine *)
+Theorem norm_attr_lvl_chunks : forall lvl entities value t ld s0 cs t',
+  stream_from_substr text (sl_start value) (sl_end value) = Ok s0 ->
+  areads (0 <? ld_depth ld) s0 cs ->
+  push_attr_chunks (0 <? ld_depth ld) cs t = Some t' ->
+  norm_attr_lvl text (S lvl) entities value t ld = OutOfFuel \/
+  norm_attr_lvl text (S lvl) entities value t ld = Ok (t', ld).
+Proof.
+  intros lvl entities value t ld s0 cs t' Hs Hr Hp.
+  rewrite norm_attr_lvl_unfold, Hs. cbn [bind].
+  rewrite (attr_loop_reads lvl entities ld s0 cs Hr _ t t' Hp).
+  destruct (Nat.ltb (length cs) (S (length (s_rest s0)))); [right|left]; reflexivity.
+Qed.
+
+Theorem norm_attr_lvl_chunks_fueled : forall lvl entities value t ld s0 cs t',
+  stream_from_substr text (sl_start value) (sl_end value) = Ok s0 ->
+  areads (0 <? ld_depth ld) s0 cs ->
+  push_attr_chunks (0 <? ld_depth ld) cs t = Some t' ->
+  (length cs <= length (s_rest s0))%nat ->
+  norm_attr_lvl text (S lvl) entities value t ld = Ok (t', ld).
+Proof.
+  intros lvl entities value t ld s0 cs t' Hs Hr Hp Hl.
+  rewrite norm_attr_lvl_unfold, Hs. cbn [bind].
+  rewrite (attr_loop_reads lvl entities ld s0 cs Hr _ t t' Hp).
+  destruct (Nat.ltb (length cs) (S (length (s_rest s0)))) eqn:E; [reflexivity|lia].
+Qed.
+
+(* with C05: [normalize_attribute] on a top-level value without general entity references
+   returns the 3.3.3 normalisation of its chunks *)
+Theorem normalize_attribute_chunks_top : forall value c s0 cs,
+  existsb (fun x => (x =? 38) || (x =? 9) || (x =? 10) || (x =? 13)) (slice_bytes text value) = true ->
+  stream_from_substr text (sl_start value) (sl_end value) = Ok s0 ->
+  areads false s0 cs ->
+  (0 <? ld_depth (c_ld c)) = false ->
+  normalize_attribute text value c = OutOfFuel \/
+  normalize_attribute text value c =
+    if valid_utf8_b (norm_attr_chunks cs)
+    then Ok (Doc.Owned (norm_attr_chunks cs), set_ld c (c_ld c))
+    else Panic P_unwrap.
+Proof.
+  intros value c s0 cs Hx Hs Hr Hd.
+  destruct (attr_chunks_total_top cs) as [t' Hp].
+  pose proof (attr_chunks_normalise cs t' Hp) as Hn.
+  unfold normalize_attribute. rewrite Hx. unfold entity_levels.
+  rewrite <- Hd in Hr, Hp.
+  destruct (norm_attr_lvl_chunks (S (N.to_nat ld_max_depth)) (c_entities c) value tb_new (c_ld c)
+              s0 cs t' Hs Hr Hp) as [E|E]; rewrite E; [left; reflexivity|right].
+  cbn [bind]. unfold tb_finish. rewrite Hn.
+  destruct (valid_utf8_b (norm_attr_chunks cs)); reflexivity.
+Qed.
+End AttrLoop.
+Print Assumptions norm_attr_lvl_chunks.
+Print Assumptions norm_attr_lvl_chunks_fueled.
+Print Assumptions attr_loop_refuses.
+Print Assumptions normalize_attribute_chunks_top.
